@@ -538,17 +538,47 @@ JudgeRsim(s, e) ==
     S_reverse_quote_roundtrip_ss |-> G(e.kind = "ss" /\ e.ok /\ e.fwd.ok /\ e.pool \in DOMAIN Pools(s),
                                        LET sl == RsimSlack(Pools(s)[e.pool], e)
                                        IN BLe(e.ask.a, BAdd(e.fwd.ret, sl)) /\ BLe(e.fwd.ret, BAdd(e.ask.a, sl))) ]
+(* beyond the listed properties (S_): a reverse route quote is the chain of single reverse quotes asked from the last hop back -
+   each hop is asked for what the next one needs, the first hop's offer is the answer, the route is refused exactly when a hop
+   is (or there is none), and each fee list holds, per denom paid out, the sum of the hops' fees in that denom (zero sums left out).
+   The harness records what it asked and what it got; the linkage is checked here. *)
+FeeListIs(lst, ch, f) ==    \* one entry per denom paid out with a non-zero fee, carrying the sum over the hops paying that denom
+  LET ds == {ch[k].out : k \in {k \in DOMAIN ch : ch[k][f] # Z}} IN
+  /\ {lst[i].d : i \in DOMAIN lst} = ds /\ Len(lst) = Cardinality(ds)
+  /\ \A i \in DOMAIN lst : lst[i].a = BSum({k \in DOMAIN ch : ch[k].out = lst[i].d}, LAMBDA k : ch[k][f])
+JudgeRroute(e) ==
+  LET ch == e.chain  n == Len(ch)
+      linked == /\ n > 0 => ch[1].ask = e.ask
+                /\ \A k \in 2..n : ch[k - 1].ok /\ ch[k].ask = ch[k - 1].offer
+      whole == e.n > 0 /\ n = e.n /\ \A k \in 1..n : ch[k].ok
+  IN [ M_reverse_chain_linked |-> Must(linked),
+       S_reverse_route_refused_iff_a_hop_is |-> G(linked, e.ok = whole),
+       S_reverse_route_is_the_chain_of_reverse_quotes |-> G(linked /\ e.ok /\ whole, e.offer = ch[n].offer),
+       S_reverse_route_fee_lists_are_the_hops_fees |-> G(linked /\ e.ok /\ whole,
+            /\ FeeListIs(e.swap_fees, ch, "swap") /\ FeeListIs(e.protocol_fees, ch, "protocol") /\ FeeListIs(e.burn_fees, ch, "burn")
+            /\ FeeListIs(e.extra_fees, ch, "extra") /\ FeeListIs(e.slippage_amounts, ch, "slip")) ]
+(* C16 seen through the AssetDecimals query: the decimals of a pool's denom are the ones recorded at creation, at the position of
+   that denom in the pool's asset list; a denom the pool does not hold, or an unknown pool, is refused *)
+DIdx(pl, d) == CHOOSE i \in DOMAIN pl.denoms : pl.denoms[i] = d
+JudgeDecimals(s, e) ==
+  LET known(it) == it.pool \in DOMAIN Pools(s) /\ it.denom \in SeqSet(Pools(s)[it.pool].denoms)
+  IN [ C16_decimals_query_reports_the_recorded_decimals |-> G(\E k \in DOMAIN e.items : known(e.items[k]),
+            \A k \in DOMAIN e.items : known(e.items[k]) =>
+                LET it == e.items[k]  pl == Pools(s)[it.pool] IN it.ok /\ it.echo /\ it.dec = pl.dec[DIdx(pl, it.denom)]),
+       S_decimals_query_refuses_foreign_denoms |-> Must(\A k \in DOMAIN e.items : ~known(e.items[k]) => ~e.items[k].ok) ]
 (* paginated queries return every item exactly once, in order, at most `limit` per page *)
 JudgePages(e) ==
   [ S_pagination_complete_and_ordered |-> Must(e.paged = e.all /\ \A i \in DOMAIN e.page_sizes : e.page_sizes[i] <= e.limit) ]
 
 (* ------------------------------------------------------------------ the trace *)
-HasPost(e) == e.ev \notin {"q_rsim", "q_pages", "driver_abort"}
+HasPost(e) == e.ev \notin {"q_rsim", "q_pages", "q_rroute", "q_decimals", "driver_abort"}
 Judge(s, e) ==
   CASE e.ev = "reset" -> NoGuards
     [] e.ev = "driver_abort" -> [ M_driver_completed |-> Must(FALSE) ]
     [] e.ev = "q_rsim" -> JudgeRsim(s, e)
     [] e.ev = "q_pages" -> JudgePages(e)
+    [] e.ev = "q_rroute" -> JudgeRroute(e)
+    [] e.ev = "q_decimals" -> JudgeDecimals(s, e)
     [] e.ev = "advance" -> JudgeAdvance(s, e, e.post)
     \* the v1.2.0 -> v1.3.0 upgrade of a deployment with legacy records: no token moves, every reserve keeps its denom and amount
     [] e.ev = "pm_upgrade" -> [ M_upgrade_of_legacy_records_succeeds |-> Must(e.ok),
